@@ -34,7 +34,11 @@ CmMutate(M, new) == [M EXCEPT !.names = Minus(M.names, new) \o new]
 CmFilter(M) == [M EXCEPT !.filt = TRUE]
 CmArrange(M) == M
 CmSliceHead(M, n) == [M EXCEPT !.lim = n]
-CmGroupBy(M, cols, add) == [M EXCEPT !.part = IF add THEN M.part \o cols ELSE cols]
+RECURSIVE CmAppendNew(_, _)
+CmAppendNew(base, cols) ==      \* a column named several times (or grouped already, with add) counts once
+    IF cols = <<>> THEN base
+    ELSE CmAppendNew(IF \E q \in DOMAIN base : base[q] = Head(cols) THEN base ELSE Append(base, Head(cols)), Tail(cols))
+CmGroupBy(M, cols, add) == [M EXCEPT !.part = CmAppendNew(IF add THEN M.part ELSE <<>>, cols)]
 CmUngroup(M) == [M EXCEPT !.part = <<>>]
 (* summarize: grouping columns (unless overwritten) followed by the new columns; grouping consumed *)
 CmSummarize(M, new) ==
